@@ -127,7 +127,7 @@ Proof. intros [d s u k]. cbn [norm_msg]. destruct (nth_error E d); reflexivity. 
 (* hence: whenever the normalisation of a message is canonical, what pack writes for the message parses back to
    that normal form, and serialising the result reproduces the bytes *)
 Theorem stable_via_norm : forall m b,
-  canon_msg E (nrm m) = true -> pack_msg E m = Ok b -> Z.of_nat (length b) <= 2147483647 ->
+  canon_msg E (nrm m) = true -> pack_msg E m = Ok b -> Z.of_nat (length b) <= max_input ->
   unpack_top E (m_desc m) b = Ok (nrm m) /\ pack_msg E (nrm m) = Ok b.
 Proof.
   intros m b C Hp Hl. rewrite <- pack_norm in Hp. split; [|exact Hp].
